@@ -79,6 +79,13 @@ func runFlowCase(c *vf.Ctx, fc *flowCase) *flowResult {
 		if fc.Tweak != nil {
 			fc.Tweak(s)
 		}
+		if fc.Template == pgen.NTemplates+7 && fc.Vdr == "disable" {
+			s.PassThroughPct = 100 // skeleton 6: LINK's outputs are links to its input
+			s.PMissingFile, s.PNull = 0, 0
+		}
+		if fc.Template == 11 && len(s.LenChoices) == 0 {
+			s.LenChoices = []int{2, 3} // skeleton 10: the flag collection must have elements
+		}
 		if fc.Template > pgen.NTemplates && len(s.LenChoices) == 0 {
 			s.LenChoices = []int{2, 3} // file skeletons: several forks each
 		}
@@ -580,7 +587,11 @@ func init() {
 				seed := c.Seed*1000003 + 1300000 + int64(i)
 				big := i%5 == 4
 				outside := i%2 == 1
-				cases = append(cases, &flowCase{Index: i, Seed: seed, Cfg: cfg, Vdr: []string{"disable", "rolling", "strict"}[i%3],
+				vdr := []string{"disable", "rolling", "strict"}[i%3]
+				if fileTmplFor(i) == pgen.NTemplates+7 {
+					vdr = "disable" // the pass-through skeleton needs VDR off
+				}
+				cases = append(cases, &flowCase{Index: i, Seed: seed, Cfg: cfg, Vdr: vdr,
 					Reattach: i%4 == 1 || i%4 == 2, Template: fileTmplFor(i),
 					Tweak: func(s *pgen.Spec) {
 						s.PMissingFile = 12
